@@ -92,7 +92,7 @@ Proofs == {"junk", "tssaddr"}
 Rels == {Counter(r, TssChain, v) : r \in Accts, v \in Vers} \cup {Counter("nobody", TssChain, 1)}
 Next == \/ \E a \in Accts, cs \in SUBSET Chains, v \in Vers : Register(a, cs, v)
         \/ \E a \in Accts, c \in Chains : Update(a, c)
-        \/ \E a \in Accts, c \in Chains, s \in 1..MaxSeq, m \in Methods \cup {"none"}, pf \in Proofs : Recv(a, c, s, m, pf)
+        \/ \E a \in Accts, c \in Chains, s \in 1..MaxSeq, m \in Methods \cup {"none", "malformed"}, pf \in Proofs : Recv(a, c, s, m, pf)
         \/ Send
         \/ \E a \in Accts, s \in 1..MaxSeq, rel \in Rels, pf \in Proofs : Ack(a, s, rel, pf)
         \/ \E p \in Paths, m \in Methods : Priv(p, m)
